@@ -56,9 +56,9 @@ def gen(rng, tier):
             k = rng.randint(1, nc)
             case['cols'] = rng.sample(range(nc), k)
             if rng.random() < 0.3:
-                case['nrows'] = rng.randint(1, nr)
+                case['nrows'] = rng.randint(0, nr)
         elif kind == 'read' and rng.random() < 0.3:
-            case['nrows'] = rng.randint(1, nr + 2)
+            case['nrows'] = rng.randint(0, nr + 2)
         elif kind == 'limits':
             lim = _composition(rng, nr)
             if rng.random() < 0.15:
@@ -233,7 +233,7 @@ def judge(case, ibc, answers):
                 continue
             c = got['ok']
             t = _tab(c)
-            ncol = len(sel[0])
+            ncol = len(cols) if cols is not None else len(full[0])      # also for a row limit of 0
             want_shape = [len(sel)] if ncol == 1 else [len(sel), ncol]
             if t != sel or c['shape'] != want_shape:
                 P('impl-vs-spec', '%s: read back %s (shape %s), written %s' % (tag, C.short(t, 100), c['shape'], C.short(sel, 100)),
